@@ -91,7 +91,16 @@ func (vc *VC) buildSliceIndex() *sliceIndex {
 	idx.factSyms = make([][]string, len(vc.facts))
 	for j, f := range vc.facts {
 		idx.factSyms[j] = symbolsOf(f)
+		// a definition "(= name term)" matters only when name matters: follow definitions backwards only
+		if strings.HasPrefix(f, "(= ") && len(idx.factSyms[j]) > 0 && strings.HasPrefix(f[3:], idx.factSyms[j][0]+" ") {
+			s := idx.factSyms[j][0]
+			idx.bySym[s] = append(idx.bySym[s], len(vc.decls)+j)
+			continue
+		}
 		for _, s := range idx.factSyms[j] {
+			if strings.HasPrefix(s, "g_b") || strings.HasPrefix(s, "g_exit") {
+				continue // block guards alone do not make a guarded assumption relevant
+			}
 			idx.bySym[s] = append(idx.bySym[s], len(vc.decls)+j)
 		}
 	}
